@@ -4,10 +4,10 @@ import AvoVerif.Props.C08
 #print axioms Avo.Mov.mov_opcodes_modelled
 #print axioms Avo.Mov.mov_ok_partial_bool
 #print axioms Avo.Mov.mov_ok_partial
-#print axioms Avo.Mov.mov_ok_fails_at_f7
-#print axioms Avo.Mov.mov_ok_statement_false
 #print axioms Avo.Mov.mov_err
 #print axioms Avo.Mov.mov_first
 #print axioms Avo.Mov.gp_width_errors
 #print axioms Avo.Mov.gp_loads_defined
 #print axioms Avo.Mov.must_move_defined
+#print axioms Avo.Mov.mov_class_level
+#print axioms Avo.Mov.loadStore_class_invariant
